@@ -19,7 +19,7 @@ Notation D := (data ++ [cont_int]).
 Definition IHn (n : nat) : Prop := forall n', n' < n -> FLn p q n'.
 
 Ltac start :=
-  unfold FLs; intros k lbl G rho th st t st' A e ae Hinv Hck Hub Hib Hsh Hpf Hlift He out r Hrun Hg;
+  unfold FLs; intros k lbl G rho th st t st' A e ae Hinv Hck Hub Hib Hnc Hsh Hpf Hlift He out r Hrun Hg;
   destruct k as [|k]; [discriminate Hsh|]; rewrite shrink_stmt_S in Hsh.
 Ltac invsh Hsh := match goal with Hrun : _ = ?r, Hg : good ?r |- _ => revert Hrun Hg; inv Hsh; intros Hrun Hg end.
 Ltac weaken He := eapply erel_weaken; [exact He | lia | intros ? ?; cbn [occurs occ_term]; tauto | apply incl_refl].
@@ -43,7 +43,7 @@ Proof.
   core_step Hrun Hg n. apply arg_int_step in Hrun as (n1 & pv & -> & Hl & Hrun); [|exact Hg].
   destruct (erel_int p q _ _ _ _ _ _ _ _ _ He (inv_nd _ _ _ _ _ Hinv) Hca (or_introl eq_refl) Hl) as (z & Epv & Hla); injection Epv as ->.
   core_step Hrun Hg n1. cbn [cont] in Hrun.
-  destruct (IH n1 ltac:(lia) nx k lbl G rho th st t1 st' A e ae Hinv Hck Hub Hib E1 Hpf Hlift ltac:(weaken He) _ _ Hrun Hg) as [m Hm].
+  destruct (IH n1 ltac:(lia) nx k lbl G rho th st t1 st' A e ae Hinv Hck Hub Hib (nc_print _ _ _ _ Hnc) E1 Hpf Hlift ltac:(weaken He) _ _ Hrun Hg) as [m Hm].
   exists (S m). cbn [arn exec_named]. rewrite Hla. exact Hm.
 Qed.
 
@@ -69,15 +69,15 @@ Proof.
     destruct (erel_int p q _ _ _ _ _ _ _ _ _ He (inv_nd _ _ _ _ _ Hinv) Hcb (or_intror (or_introl eq_refl)) Hl2') as (y & Epv & Hlb); injection Epv as ->.
     core_step Hrun Hg n2. rewrite ax_ifsort_shrink in Hrun.
     destruct (eval_cmp (shrink_ifsort so) x y) eqn:Ecmp.
-    + destruct (IH n2 ltac:(lia) s1 k lbl G rho th st u1 st1 A e ae Hinv Hc1 Hub1 Hib1 E1 Hpf1 Hlift1 ltac:(weaken He) _ _ Hrun Hg) as [m Hm].
+    + destruct (IH n2 ltac:(lia) s1 k lbl G rho th st u1 st1 A e ae Hinv Hc1 Hub1 Hib1 (proj1 (nc_ifc _ _ _ _ _ _ Hnc)) E1 Hpf1 Hlift1 ltac:(weaken He) _ _ Hrun Hg) as [m Hm].
       exists (S m). cbn [arn exec_named option_map]. rewrite Hla, Hlb, Ecmp. exact Hm.
-    + destruct (IH n2 ltac:(lia) s2 k lbl G rho th st1 u2 st' A e ae Hinv1 Hc2 Hub2 Hib2 E2 Hpf2 Hlift ltac:(weaken He) _ _ Hrun Hg) as [m Hm].
+    + destruct (IH n2 ltac:(lia) s2 k lbl G rho th st1 u2 st' A e ae Hinv1 Hc2 Hub2 Hib2 (proj2 (nc_ifc _ _ _ _ _ _ Hnc)) E2 Hpf2 Hlift ltac:(weaken He) _ _ Hrun Hg) as [m Hm].
       exists (S m). cbn [arn exec_named option_map]. rewrite Hla, Hlb, Ecmp. exact Hm.
   - rewrite ax_ifsort_shrink in Hrun.
     destruct (eval_cmp (shrink_ifsort so) x 0) eqn:Ecmp.
-    + destruct (IH n1 ltac:(lia) s1 k lbl G rho th st u1 st1 A e ae Hinv Hc1 Hub1 Hib1 E1 Hpf1 Hlift1 ltac:(weaken He) _ _ Hrun Hg) as [m Hm].
+    + destruct (IH n1 ltac:(lia) s1 k lbl G rho th st u1 st1 A e ae Hinv Hc1 Hub1 Hib1 (proj1 (nc_ifc _ _ _ _ _ _ Hnc)) E1 Hpf1 Hlift1 ltac:(weaken He) _ _ Hrun Hg) as [m Hm].
       exists (S m). cbn [arn exec_named option_map]. rewrite Hla, Ecmp. exact Hm.
-    + destruct (IH n1 ltac:(lia) s2 k lbl G rho th st1 u2 st' A e ae Hinv1 Hc2 Hub2 Hib2 E2 Hpf2 Hlift ltac:(weaken He) _ _ Hrun Hg) as [m Hm].
+    + destruct (IH n1 ltac:(lia) s2 k lbl G rho th st1 u2 st' A e ae Hinv1 Hc2 Hub2 Hib2 (proj2 (nc_ifc _ _ _ _ _ _ Hnc)) E2 Hpf2 Hlift ltac:(weaken He) _ _ Hrun Hg) as [m Hm].
       exists (S m). cbn [arn exec_named option_map]. rewrite Hla, Ecmp. exact Hm.
 Qed.
 
@@ -110,7 +110,7 @@ Proof.
     - intros b _ Hb. split; [cbn [occurs occ_term]; tauto | reflexivity].
     - rewrite (inv_self p _ _ _ _ _ Hinv Hux Hix). reflexivity.
     - constructor. }
-  destruct (IH n ltac:(lia) s' k lbl _ rho th st t1 st' _ _ _ (inv_push p _ _ _ _ _ CPrd CI64 Hinv Hux Hix) Hck Hub Hib E1 Hpf Hlift He' _ _ Hrun Hg) as [m Hm].
+  destruct (IH n ltac:(lia) s' k lbl _ rho th st t1 st' _ _ _ (inv_push p _ _ _ _ _ CPrd CI64 Hinv Hux Hix) Hck Hub Hib (nc_cut_mu_r _ _ _ _ _ _ _ Hnc) E1 Hpf Hlift He' _ _ Hrun Hg) as [m Hm].
   exists (S m). cbn [arn exec_named]. exact Hm.
 Qed.
 
@@ -145,7 +145,7 @@ Proof.
       - intros b0 _ Hb. split; [cbn [occurs occ_term]; tauto | reflexivity].
       - rewrite (inv_self p _ _ _ _ _ Hinv Hux Hix). reflexivity.
       - constructor. }
-    destruct (IH n2 ltac:(lia) s' k lbl _ rho th st t1 st' _ _ _ (inv_push p _ _ _ _ _ CPrd CI64 Hinv Hux Hix) Hck Hub Hib E1 Hpf Hlift He' _ _ Hrun Hg) as [m Hm].
+    destruct (IH n2 ltac:(lia) s' k lbl _ rho th st t1 st' _ _ _ (inv_push p _ _ _ _ _ CPrd CI64 Hinv Hux Hix) Hck Hub Hib (nc_cut_mu_r _ _ _ _ _ _ _ Hnc) E1 Hpf Hlift He' _ _ Hrun Hg) as [m Hm].
     exists (S m). cbn [arn exec_named]. rewrite Hla, Hlb, Hop. exact Hm.
   - cbn [cont] in Hrun. exists 1. cbn [arn exec_named]. rewrite Hla, Hlb, Hop. exact Hrun.
 Qed.
